@@ -336,12 +336,21 @@ class ExecMixin:
                 return self.do_call(st, site, fv.func, args, dty)
             if isinstance(fv, VClosure):
                 return self.call_closure(st, site, fv, args)
+            if isinstance(fv, VRef):
+                tv = self.load(st, fv.cell, fv.path)
+                if isinstance(tv, (VClosure, VFn)):
+                    return self.call_closure(st, site, fv, args)
             self.unmodelled["indirect call"] += 1
             return [(st, VUnknown(dty, self.fresh("ind")))]
         self.stats["calls"] += 1
         hook = self.hooks.get("call")
         if hook:
             hook(frame, st, bb, func, args)
+        # 0. tuple-struct / tuple-variant constructor used as a function value
+        if "ctor" in func:
+            c = func["ctor"]
+            cargs = list(args)
+            return [(st, VAdt(c["ty"], Lin.const(c["variant"]), {c["variant"]: tuple(cargs)}))]
         # 1. trait contracts
         tr = func.get("trait")
         if tr in (READER_TRAIT, WRITER_TRAIT) and not self.opts.get("inline_rw_impls"):
@@ -470,7 +479,7 @@ class ExecMixin:
         final recorded pass.  Returns {'ret': [...], 'exit': [(st, bb)]}"""
         self.stats["loops"] += 1
         lid = (frame.key, head)
-        if self.opts.get("unroll"):
+        if self.opts.get("unroll") or self.small_array_loop(frame, st0, head):
             r = self.try_unroll(frame, st0, head, loopset)
             if r is not None:
                 return r
@@ -561,6 +570,32 @@ class ExecMixin:
         if hook:
             hook(frame, head, H, res, havoc, lid)
         return {"ret": rets + res["ret"], "exit": res["exit"]}
+
+    def small_array_loop(self, frame, st0, head):
+        """is this a `for x in <fixed-size array / few literal items>` loop?  Its head calls Iterator::next on an
+        iterator over at most 8 statically known items; such loops are unrolled instead of summarised."""
+        blk = frame.body["blocks"][head]
+        t = blk["term"]
+        if t["t"] != "call" or "key" not in t["func"] or not t["func"]["name"].endswith("::next") or not t["args"]:
+            return False
+        self.mute += 1
+        try:
+            s = st0.fork()
+            for stmt in blk["stmts"]:
+                r = self.exec_stmt(frame, s, head, stmt)
+                if len(r) != 1:
+                    return False
+                s = r[0]
+            v = self.eval_operand(s, frame, t["args"][0])
+            for _ in range(2):
+                if isinstance(v, VRef):
+                    v = self.load(s, v.cell, v.path)
+            return isinstance(v, VIter) and v.kind == "array" and isinstance(v.pos, int) and v.items is not None \
+                and len(v.items) - v.pos <= 8
+        except Abort:
+            return False
+        finally:
+            self.mute -= 1
 
     def try_unroll(self, frame, st0, head, loopset, max_iter=24, max_width=3):
         """bounded concrete unrolling for loops with a small, statically decided trip count (e.g. a loop over a
